@@ -1381,10 +1381,12 @@ def copy_env(env):
     for k, v in env.items():
         if hasattr(v, "_copy"):
             out[k] = v._copy()
-        elif isinstance(v, list) and is_symbolic(v):
-            out[k] = list(v)
-        elif isinstance(v, dict) and k != "__builtins__" and len(v) < 64 and is_symbolic(v):
+        elif type(v) is list:
+            out[k] = list(v)          # lists may be mutated in place inside a branch (append)
+        elif type(v) is dict and len(v) < 256:
             out[k] = dict(v)
+        elif type(v) is set:
+            out[k] = set(v)
         else:
             out[k] = v
     return out
